@@ -181,6 +181,12 @@ def run(ctx):
         if not torch.equal(unpack_v2(p), u):
             ctx.spec_failures.append(("C15:v2-not-invertible", {"N": N, "K": K, "data": "random"}))
         add("pack2", u, p, "v2-random")
+        # the codes may come in any integer dtype (the v1 unpack returns int8): same words, same round trip
+        for cdt in (torch.int8, torch.int16, torch.int32, torch.int64):
+            pc = pack_v2(u.to(cdt))
+            if not torch.equal(pc, p) or not torch.equal(unpack_v2(pc).to(torch.uint8), u):
+                ctx.spec_failures.append(("C15:v2-depends-on-the-dtype-of-the-codes", {"N": N, "K": K, "dtype": str(cdt)}))
+            ctx.evaluations += 1
         # arbitrary int16 payload (unpack on every word value incl. negative ones)
         w = torch.randint(-32768, 32768, (N // 4, K), generator=g, dtype=torch.int32).to(torch.int16)
         add("unpack2", w, unpack_v2(w), "v2-unpack-arbitrary")
@@ -195,6 +201,12 @@ def run(ctx):
                     if not torch.equal(back.to(torch.uint8), u):
                         ctx.spec_failures.append(("C15:v1-not-invertible", {"N": N, "K": K, "reorder": reorder}))
                     add("pack1" + sfx, u, p, "v1")
+                    if N == 3:
+                        for cdt in (torch.int8, torch.int16, torch.int32, torch.int64):
+                            pc = pack(u.to(cdt), reorder)
+                            if not torch.equal(pc, p) or not torch.equal(unpack(pc, reorder).to(torch.uint8), u):
+                                ctx.spec_failures.append(("C15:v1-depends-on-the-dtype-of-the-codes", {"N": N, "K": K, "reorder": reorder, "dtype": str(cdt)}))
+                            ctx.evaluations += 1
                     add("unpack1" + sfx, p, back, "v1-unpack")
                 w = torch.randint(-2 ** 31, 2 ** 31, (N, K // 8), generator=g, dtype=torch.int64).to(torch.int32)
                 add("unpack1" + sfx, w, unpack(w, reorder), "v1-unpack-arbitrary")
